@@ -70,7 +70,7 @@ def check_cfg(job):
     cfg, plan, seed = job
     rs = np.random.RandomState(seed)
     shape = tuple(cfg["shape"])
-    axes = None if len(cfg["axes"]) == 0 else tuple(cfg["axes"])
+    axes = None if len(cfg["axes"]) == 0 else (() if tuple(cfg["axes"]) == (-99,) else tuple(cfg["axes"]))   # <<-99>> = the empty subset
     osh = None if len(cfg["oshape"]) == 0 else list(cfg["oshape"])
     norm = "ortho" if cfg["ortho"] else None
     fn = sp.fft if cfg["dir"] == "fft" else sp.ifft
